@@ -113,6 +113,20 @@ class Raised(Exception):
         self.exc = exc
 
 
+def _lib(fn, args, kw):
+    """call a library model; errors the modelled library raises become exceptions of the analysed program, a call the model's
+    signature cannot bind is a modelling gap"""
+    try:
+        return fn(*args, **kw)
+    except (ValueError, IndexError, ZeroDivisionError, OverflowError) as ex:
+        raise Raised("%s(%s)" % (type(ex).__name__, ex))
+    except TypeError as ex:
+        msg = str(ex)
+        if any(k in msg for k in ("positional argument", "unexpected keyword", "required positional", "multiple values for", "required keyword")):
+            raise Undecided("library model cannot bind this call: %s" % msg)
+        raise Raised("TypeError(%s)" % msg)
+
+
 class _Ret(Exception):
     def __init__(self, v):
         self.v = v
@@ -505,7 +519,7 @@ class Abs:
             else:
                 kw[k.arg] = self.ev(k.value)
         if dn in self.summaries:
-            return self.summaries[dn](*args, **kw)
+            return _lib(self.summaries[dn], args, kw)
         if dn == "isinstance":
             return self.isinstance(args[0], e.args[1])
         if dn == "len":
@@ -647,12 +661,12 @@ class Abs:
             tag = f[0]
             if tag == "callable":
                 if f[1] in self.summaries:
-                    return self.summaries[f[1]](*args, **kw)
+                    return _lib(self.summaries[f[1]], args, kw)
                 raise Undecided("no summary for %s" % f[1])
             if tag == "bound":
-                return self.summaries[f[1]](f[2], *args, **kw)
+                return _lib(self.summaries[f[1]], [f[2]] + list(args), kw)
             if tag == "py":
-                return f[1](*args, **kw)
+                return _lib(f[1], args, kw)
             if tag == "sampler":
                 return Tok("draw(%s)" % f[1])
             if tag == "method" and len(f) == 2 and isinstance(self.self_obj, Obj):
